@@ -624,6 +624,19 @@ fn lifecycle_case(seed: u64, idx: u64) -> CaseOut {
                     if ticker_flushes(&spy) != n {
                         return Err(("ticker-draws-after-finish".into(), "a frame from the ticker thread after finish() returned".into()));
                     }
+                    if interval_ms <= 5 {
+                        // the bar is brought back with reset() and asks for the same steady tick again: the ticker that
+                        // left when it saw the finished bar must not be mistaken for a running one (round 11)
+                        pb.reset();
+                        let n2 = ticker_flushes(&spy);
+                        pb.enable_steady_tick(Duration::from_millis(interval_ms));
+                        if !wait_until(|| ticker_flushes(&spy) >= n2 + need, Duration::from_secs(4)) {
+                            return Err((
+                                "ticker-does-not-redraw".into(),
+                                format!("finish(), reset(), enable_steady_tick({interval_ms} ms) again: {} frames from a ticker thread after 4 s", ticker_flushes(&spy) - n2),
+                            ));
+                        }
+                    }
                 }
                 _ => {
                     // while a ticker is installed, manual tick() is inert
